@@ -90,16 +90,32 @@ Inductive rkind :=
 | ClosedErr.          (* the error a blocked Read gets when the transport is closed under it *)
 
 (** cause codes: 0 nil, 1 io.EOF, 2 io.ErrUnexpectedEOF, 3 "incorrect frame size", 4 Execute error,
-    5 closed-under-read, 1000+10*tag+{0 the raw error itself, 1 the raw error wrapped by
+    5 closed-under-read, 6 "end of stream inside a frame" (made by the read loop),
+    1000+10*tag+{0 the raw error itself, 1 the raw error wrapped by
     NewTTransportExceptionFromError, 2 the scripted TTransportException}.
 
     [classify n k]: the cause the read loop derives from error [k] when [n] bytes of the
     current frame (header included) have arrived.  n < 4: the error comes out of
     io.ReadFull(bufio, header) unwrapped (io.EOF after 1..3 bytes becomes
     io.ErrUnexpectedEOF); n >= 4: it comes out of TFramedTransport.Read, wrapped by
-    NewTTransportExceptionFromError, which turns io.EOF into END_OF_FILE.  The read loop takes
-    END_OF_FILE for "peer disconnected" and closes with a nil cause. *)
+    NewTTransportExceptionFromError, which turns io.EOF into END_OF_FILE.  The read loop counts
+    the bytes the underlying transport delivered and the bytes complete frames account for
+    (n is the difference): END_OF_FILE with n = 0 is "peer disconnected" and closes with a nil
+    cause; END_OF_FILE with n > 0 is replaced by error 6 (since "fix: adapter transport reports
+    an END_OF_FILE that arrives inside a frame as an unclean close"). *)
 Definition classify (n : Z) (k : rkind) : Z :=
+  let body := 4 <=? n in
+  match k with
+  | EofTte => if n =? 0 then 0 else 6
+  | EofRaw => if body then 6 else if n =? 0 then 1 else 2
+  | ErrRaw t => 1000 + 10 * t + (if body then 1 else 0)
+  | ErrTte t => 1000 + 10 * t + 2
+  | ClosedErr => 5
+  end.
+
+(** the classification before that repair (known finding C15-eof-inside-frame-clean): every
+    END_OF_FILE was taken for a disconnect, wherever in a frame it arrived *)
+Definition classify_pinned (n : Z) (k : rkind) : Z :=
   let body := 4 <=? n in
   match k with
   | EofTte => 0
